@@ -633,6 +633,56 @@ pub fn vec_op<'b, P: Pair>(ctx: &mut Ctx, bump: &'b Bump, v: &mut VSlot<'b, P::A
             ctx.both(&format!("slice index {:?}", range), || vals(&s[range]), || vals(&t[range]));
             ctx.both("iter().rev()", || s.iter().rev().map(|x| x.val()).collect::<Vec<_>>(), || t.iter().rev().map(|x| x.val()).collect::<Vec<_>>());
             ctx.both("debug fmt", || format!("{:?}", s), || format!("{:?}", t));
+            // trait forwarding: comparisons with slices, hashing by value, reference iteration, AsRef/Borrow
+            let probe_s: Vec<P::A> = (0..len.min(3)).map(|j| P::A::make((c as u32 + j as u32) % 12)).collect();
+            let probe_t: Vec<P::B> = (0..len.min(3)).map(|j| P::B::make((c as u32 + j as u32) % 12)).collect();
+            ctx.both("== / != against a slice and a std Vec", || (**s == probe_s[..], s.as_slice() != &probe_s[..], s.starts_with(&probe_s[..probe_s.len().min(1)])), || (**t == probe_t[..], t.as_slice() != &probe_t[..], t.starts_with(&probe_t[..probe_t.len().min(1)])));
+            ctx.both("for x in &vec / iter().count / contains", || ((&*s).into_iter().map(|x| x.val()).sum::<u32>(), s.iter().count(), s.iter().any(|x| x.val() == 3)), || ((&*t).into_iter().map(|x| x.val()).sum::<u32>(), t.iter().count(), t.iter().any(|x| x.val() == 3)));
+            {
+                use std::borrow::Borrow;
+                let vref: &BVec<P::A> = &*s;
+                let bs: &[P::A] = Borrow::<[P::A]>::borrow(vref);
+                let rs: &[P::A] = AsRef::<[P::A]>::as_ref(&*s);
+                if vals(bs) != vals(t.as_slice()) || vals(rs) != vals(t.as_slice()) {
+                    ctx.v("C13", "Borrow<[T]> / AsRef<[T]> give a different slice".into());
+                }
+            }
+            ctx.both("position/rposition/binary_search_by_key/windows", || (s.iter().position(|x| x.val() == c as u32 % 12), s.iter().rposition(|x| x.val() == c as u32 % 12), s.windows(2).count(), s.chunks(3).map(|c| c.len()).collect::<Vec<_>>()), || (t.iter().position(|x| x.val() == c as u32 % 12), t.iter().rposition(|x| x.val() == c as u32 % 12), t.windows(2).count(), t.chunks(3).map(|c| c.len()).collect::<Vec<_>>()));
+            // in-place mutation through the exclusive views
+            ctx.both(
+                "iter_mut / as_mut_slice / first_mut / swap / reverse / rotate",
+                || {
+                    for x in s.iter_mut().step_by(2) {
+                        let v = (x.val() + 1) % 12;
+                        x.set_val(v);
+                    }
+                    if s.len() >= 2 {
+                        let n = s.len();
+                        s.as_mut_slice().swap(0, n - 1);
+                        s.reverse();
+                        s.rotate_left(1);
+                    }
+                    if let Some(x) = s.first_mut() {
+                        x.set_val(5);
+                    }
+                },
+                || {
+                    for x in t.iter_mut().step_by(2) {
+                        let v = (x.val() + 1) % 12;
+                        x.set_val(v);
+                    }
+                    if t.len() >= 2 {
+                        let n = t.len();
+                        t.as_mut_slice().swap(0, n - 1);
+                        t.reverse();
+                        t.rotate_left(1);
+                    }
+                    if let Some(x) = t.first_mut() {
+                        x.set_val(5);
+                    }
+                },
+            );
+            ctx.both("sort_by_key (slice method through DerefMut)", || s.sort_by_key(|x| x.val()), || t.sort_by_key(|x| x.val()));
         }
         _ => {}
     }
